@@ -368,11 +368,11 @@ def _guarded_counter(F, fn, l, fname):
 
 
 
-def merge_rule(ctx):
+def merge_rule(ctx, rule="C12.R6"):
     F, rep = ctx.F, ctx.rep
     fn = F.fn("frontend::lexer::LexResult::<'a>::extended_to")
     if fn is None:
-        rep.fail("C12.R6", "anchor", "LexResult::extended_to not found")
+        rep.fail(rule, "anchor", "LexResult::extended_to not found")
         return
     rep.analysed(fn)
     from .c03 import kind_deep
@@ -380,10 +380,13 @@ def merge_rule(ctx):
     ret_srcs = set()
     for bi, si, st in fn.assigns():
         if st["pl"]["l"] == 0 and not st["pl"]["p"]:
-            ret_srcs |= {d for d, p in origins(fn, st["rv"]["use"])} if "use" in st["rv"] else {("other",)}
             agg = st["rv"].get("agg")
             if isinstance(agg, dict):
                 ret_srcs.add(("agg", bi, si))
+            elif "use" in st["rv"]:
+                ret_srcs |= {d for d, p in origins(fn, st["rv"]["use"])}
+            else:
+                ret_srcs.add(("other",))
     for field in ("newlines", "new_line_start"):
         ok, why = True, ""
         if ret_srcs == {("param", 1)}:
@@ -396,9 +399,27 @@ def merge_rule(ctx):
                 if not any(d == ("param", 1) and p[:1] == (field,) for d, p in deps):
                     ok = False
                     why = "extended_to overwrites `%s` with a value that does not depend on the receiver's own `%s`: the line breaks inside the first token are forgotten when a suffix is merged" % (field, field)
+        elif ret_srcs and all(x[0] == "agg" for x in ret_srcs):
+            # a fresh LexResult { .. }: the operand stored in this field must depend on the receiver's field
+            adt = F.adts.get("frontend::lexer::LexResult")
+            idx = None
+            if adt:
+                for i_, f_ in enumerate(adt["variants"][0]["fields"]):
+                    if f_["name"] == field:
+                        idx = i_
+            for x in ret_srcs:
+                st = fn.stmts(x[1])[x[2]]
+                ops = st["rv"].get("ops", [])
+                if idx is None or idx >= len(ops):
+                    ok, why = False, "cannot tell which operand of the new LexResult is `%s`" % field
+                    continue
+                deps = kind_deep(fn, ops[idx])
+                if not any(d == ("param", 1) and p[:1] == (field,) for d, p in deps):
+                    ok = False
+                    why = "extended_to builds its result with a `%s` that does not depend on the receiver's own `%s`: the line breaks inside the first token are forgotten when a suffix is merged" % (field, field)
         else:
-            ok, why = False, "shape not recognised: extended_to does not return its (updated) receiver"
-        rep.ob("C12.R6", "merge-keeps::%s" % field, ok, why, fn.loc(), how="result.%s depends on self.%s" % (field, field))
+            ok, why = False, "shape not recognised: extended_to returns neither its (updated) receiver nor a new LexResult"
+        rep.ob(rule, "merge-keeps::%s" % field, ok, why, fn.loc(), how="result.%s depends on self.%s" % (field, field))
 
 
 
